@@ -16,6 +16,7 @@ type c01Case struct {
 	Opts gwOpts    `json:"gateway"`
 	Kind string    `json:"transport"`
 	Hist []PktSpec `json:"history"`
+	Via  string    `json:"variant,omitempty"` // second-in-early: see runHistoryVia
 }
 
 func genC01Opts(t *rapid.T) gwOpts {
@@ -44,7 +45,11 @@ func resolveHosts(o gwOpts) gwOpts {
 
 func genC01(t *rapid.T) c01Case {
 	o := genC01Opts(t)
-	return c01Case{Opts: o, Kind: genKind(t), Hist: genHistory(t, o)}
+	c := c01Case{Opts: o, Kind: genKind(t), Hist: genHistory(t, o)}
+	if c.Kind == "legacy" && rapid.IntRange(0, 7).Draw(t, "secondIn") == 0 {
+		c.Via = "second-in-early"
+	}
+	return c
 }
 
 func classifyHist(kind string, o gwOpts, hist []PktSpec) (bool, []string) {
@@ -84,11 +89,14 @@ func runC01(c c01Case) *Violation {
 	o := resolveHosts(c.Opts)
 	return withGateway(mkGateway(o), func() *Violation {
 		units, evs := render(histCfg{Opts: o, Kind: c.Kind}, c.Hist, "127.0.0.1")
-		obs, _, v := runHistory(c.Kind, inpTarget(userHeader(o, W().User)...), units)
+		obs, _, v := runHistoryVia(c.Kind, inpTarget(userHeader(o, W().User)...), units, c.Via)
 		if v != nil {
 			return v
 		}
 		if f := model.CheckTunnel(model.Cfg{ServerCaps: o.serverCaps(), TokenAuth: o.TokenAuth}, evs, obs); f != nil {
+			if c.Via != "" {
+				f.Sig += "/" + c.Via
+			}
 			return viol(f.Sig, "%s\n history: %s\n responses: %v\n accepts: %v", f.Msg, historyString(c.Hist), obs.Resps, obs.Accepts)
 		}
 		return nil
